@@ -365,6 +365,8 @@ func execConv(a []string) (string, string) {
 	}
 	val, rerr, reqs := c15Read(rd, cc, data)
 	var valS string
+	var linF float64
+	var linOK bool
 	switch {
 	case rerr == nil:
 		f := lr.FieldByName("factors")
@@ -380,6 +382,25 @@ func execConv(a []string) (string, string) {
 		x := int64(parser.Parse(byte(lr.FieldByName("readingCmd").FieldByName("Rsp").FieldByName("Reading").Uint())))
 		ex, _ := c15Exact(f.FieldByName("M").Int(), f.FieldByName("B").Int(), f.FieldByName("BExp").Int(), f.FieldByName("RExp").Int(), x)
 		valS = c15Decimal(ex) + " num=" + b2s(!math.IsNaN(val))
+		// the LINEAR float64 the code computed (for a linearised reader: a linear reader built from the same record), as
+		// the exact rational it is: compared bit for bit with the model's binary64 evaluation of the same five roundings
+		linF, linOK = val, true
+		if kind != "linear" {
+			rec2 := rec
+			rec2.Linearisation = ipmi.LinearisationLinear
+			linOK = false
+			if rd2, err := bmc.NewSensorReader(&rec2); err == nil {
+				if lf, err2, _ := c15Read(rd2, cc, data); err2 == nil {
+					linF, linOK = lf, true
+				}
+			}
+		}
+		if linOK && !math.IsNaN(linF) && !math.IsInf(linF, 0) {
+			q := new(big.Rat).SetFloat64(linF)
+			valS += fmt.Sprintf(" lin=%s/%s", q.Num().String(), q.Denom().String())
+		} else {
+			valS += " lin=?"
+		}
 	case errors.Is(rerr, bmc.ErrSensorReadingUnavailable):
 		valS = "err-unavailable"
 	case errors.Is(rerr, bmc.ErrSensorScanningDisabled):
@@ -437,16 +458,10 @@ func execConv(a []string) (string, string) {
 		return out, c15LinearCheck(val, exact, mag)
 	}
 	// the linear float64 the same code computes: a second reader from the same record with the linearisation cleared
-	rec2 := rec
-	rec2.Linearisation = ipmi.LinearisationLinear
-	rd2, err := bmc.NewSensorReader(&rec2)
-	if err != nil {
-		return out, "no linear reader for the same record: " + err.Error()
+	if !linOK {
+		return out, "no linear reader for the same record, or it failed"
 	}
-	lf, err2, _ := c15Read(rd2, cc, data)
-	if err2 != nil {
-		return out, "the linear reader of the same record failed: " + err2.Error()
-	}
+	lf := linF
 	if v := c15LinearCheck(lf, exact, mag); v != "" {
 		return out, v
 	}
